@@ -217,11 +217,20 @@ impl<Db: Database> StorageManager<Db> {
         }
 
         // Write to the database
-        self.tic_toc(
-            METRIC_WRITE_TIME,
-            self.db.batch_set(records, DbSetState::TransactionCommit),
-        )
-        .await?;
+        if let Err(err) = self
+            .tic_toc(
+                METRIC_WRITE_TIME,
+                self.db.batch_set(records, DbSetState::TransactionCommit),
+            )
+            .await
+        {
+            // the write failed as a whole: the records put into the cache above (including the
+            // new epoch record) must not be served as if they had been committed
+            if let Some(cache) = &self.cache {
+                cache.flush().await;
+            }
+            return Err(err);
+        }
         self.increment_metric(METRIC_BATCH_SET);
         Ok(num_records as u64)
     }
